@@ -240,6 +240,42 @@ func TestC18(t *testing.T) {
 			})
 			return
 		}
+		if mode == 0 && rapid.IntRange(0, 3).Draw(rt, "viacopy") == 0 {
+			// the data is fed with io.Copy from a reader (which uses the writer's ReadFrom if it has
+			// one) that may return short reads and its last bytes together with io.EOF
+			vp := &pwr.ValidatingPool{Pool: inner, Container: si.Container, Signature: si}
+			w, err := vp.GetWriter(fi)
+			if err != nil {
+				Violation(rt, "C18/getwriter", "GetWriter: %v", err)
+				return
+			}
+			src := NewSliceReader(written, rapid.IntRange(0, 4).Draw(rt, "copyslicing"), rapid.Uint64().Draw(rt, "copysliceseed"), false, rapid.Bool().Draw(rt, "copyeofwith"))
+			_, cperr := io.Copy(w, src)
+			cerr := w.Close()
+			if firstBad < 0 {
+				if cperr != nil || cerr != nil {
+					Violation(rt, "C18/good-data-rejected", "io.Copy of content equal to the signed content (or a block-aligned prefix) was rejected: copy err %v, close err %v (%s)", cperr, cerr, setup)
+					return
+				}
+				if !bytes.Equal(inner.Got[fi], written) {
+					Violation(rt, "C18/good-data-altered", "after io.Copy the inner pool holds %d bytes, %d were written (first diff %d) (%s)", len(inner.Got[fi]), len(written), firstDiff(inner.Got[fi], written), setup)
+					return
+				}
+			} else {
+				if cperr == nil && cerr == nil {
+					Violation(rt, "C18/bad-data-accepted", "io.Copy and Close succeeded although block %d differs from the signed block (%s)", firstBad, setup)
+					return
+				}
+				want := written[:firstBad*BlockSize]
+				if !bytes.Equal(inner.Got[fi], want) {
+					Violation(rt, "C18/bad-data-reached-pool", "after the failed io.Copy (copy err %v, close err %v) the inner pool holds %d bytes; exactly the %d bytes before differing block %d should have reached it (%s)", cperr, cerr, len(inner.Got[fi]), len(want), firstBad, setup)
+					return
+				}
+			}
+			Ev.Probe("data_fed_with_io_copy")
+			Ev.Eval(fnv64(signed, written, []byte("copy")), firstBad >= 0, func() interface{} { return map[string]interface{}{"setup": "io.Copy: " + setup} })
+			return
+		}
 		if mode == 0 {
 			vp := &pwr.ValidatingPool{Pool: inner, Container: si.Container, Signature: si}
 			w, err := vp.GetWriter(fi)
